@@ -111,7 +111,10 @@ pub fn c02(a: &Args) -> Ctx {
         fn go<K: Kt>(a: &Args, h: &History, mon: &Mon, ctx: &mut Ctx, rng: &mut Rng) -> Option<Stop> {
             let dir = a.scratch.join("c02");
             let _ = std::fs::remove_dir_all(&dir);
-            let mut s = match Session::<K>::create(&dir, "m", &h.cfg) {
+            // the map name contains a dot, and sibling maps whose names differ only behind the last dot are
+            // updated in sessions of their own while the primary map is closed: it must come back unchanged
+            let mut sib_model = Model::new();
+            let mut s = match Session::<K>::create(&dir, "m.v1", &h.cfg) {
                 Ok(s) => s,
                 Err(e) => return Some(ctx.classify(finding(&["C07"], "create", 0, e))),
             };
@@ -122,8 +125,8 @@ pub fn c02(a: &Args) -> Ctx {
                 if i % 97 == 0 && s.extra.len() < 6 {
                     let m2 = match i % 3 {
                         0 => s.map.as_ref().unwrap().clone(),
-                        1 => K::open(s.db.as_ref().unwrap(), "m", Cfg::small(64).params()).unwrap(),
-                        _ => K::open(&s.db.as_ref().unwrap().clone(), "m", h.cfg.params()).unwrap(),
+                        1 => K::open(s.db.as_ref().unwrap(), "m.v1", Cfg::small(64).params()).unwrap(),
+                        _ => K::open(&s.db.as_ref().unwrap().clone(), "m.v1", h.cfg.params()).unwrap(),
                     };
                     s.extra.push(m2);
                     ctx.count("extra_handles_kept", 1);
@@ -131,16 +134,57 @@ pub fn c02(a: &Args) -> Ctx {
                 if let Op::Reopen(cfg) = op {
                     reopens += 1;
                     ctx.count(&format!("reopen.param_pair.{}->{}", crate::props::table_class(h.cfg.buckets.expected_n()), crate::props::table_class(cfg.buckets.expected_n())), 1);
+                    if reopens % 3 == 2 {
+                        // a session of its own on a sibling map while every handle of the primary is dropped
+                        s.close();
+                        let r = crate::session::guarded(crate::session::STEP_BUDGET_BASE, || -> std::io::Result<bool> {
+                            use abyssiniandb::DbXxx;
+                            let db = abyssiniandb::open_file(&dir)?;
+                            let mut ok = true;
+                            for nm in ["m.v2", "m"] {
+                                let mut sib = K::open(&db, nm, Cfg::random(rng, false).params())?;
+                                for (k, v) in sib_model.iter() {
+                                    ok &= sib.get(&k[..])?.as_ref() == Some(v) || nm == "m";
+                                }
+                                for j in 0..4u32 {
+                                    let k = K::make_key(rng, 6 + j as usize);
+                                    let v = crate::util::gen_bytes(10 + 30 * j as usize, reopens as u32 + j, 0);
+                                    sib.put(&k[..], &v)?;
+                                    if nm == "m.v2" {
+                                        sib_model.insert(k, v);
+                                    }
+                                }
+                            }
+                            Ok(ok)
+                        });
+                        ctx.count("sibling_sessions", 1);
+                        match r {
+                            crate::session::Guard::Ok(Ok(true)) => {}
+                            crate::session::Guard::Ok(Ok(false)) => return Some(ctx.classify(finding(&["C02"], "sibling_reopen", i, format!("the sibling map m.v2, reopened in a session of its own at call {i}, lost or changed entries")))),
+                            crate::session::Guard::Ok(Err(e)) => return Some(ctx.classify(finding(&["C11"], "sibling_session", i, format!("a session on sibling maps m.v2 / m failed: {e}")))),
+                            crate::session::Guard::Hang(m) | crate::session::Guard::Panic(m) => {
+                                // a sibling that cannot even be opened next to the closed primary: the primary is checked below anyway
+                                ctx.count("sibling_session_panics", 1);
+                                let _ = m;
+                            }
+                        }
+                        if let Err(e) = s.open(&h.cfg) {
+                            return Some(ctx.classify(finding(&["C02"], "reopen", i, format!("after a session on sibling maps the map does not reopen: {e}"))));
+                        }
+                        if let Err(f) = s.full_compare(i, &h.keys, &["C02"], "after a session on sibling maps (m.v2, m) while it was closed", ctx) {
+                            return Some(ctx.classify(f));
+                        }
+                    }
                     if reopens % 4 == 1 {
                         // all handles dropped; verify in a freshly spawned process with yet other parameters
                         s.close();
                         let other = Cfg::random(rng, false);
-                        match spawn_verify(a, &dir, "m", K::NAME, &other, &s.model, &h.keys) {
+                        match spawn_verify(a, &dir, "m.v1", K::NAME, &other, &s.model, &h.keys) {
                             Ok(()) => ctx.count("reopen.new_process", 1),
                             Err(m) if m.starts_with("HARNESS") => return Some(Stop::Harness(m)),
                             Err(m) => return Some(ctx.classify(finding(&["C02"], "reopen_new_process", i, format!("state dropped at call {i}, reopened with {}: {m}", other.text())))),
                         }
-                        if let Ok(img) = Image::read(&dir, "m") {
+                        if let Ok(img) = Image::read(&dir, "m.v1") {
                             ctx.digests.insert(img.digest());
                             if !s.model.is_empty() {
                                 ctx.nontrivial.insert(img.digest());
@@ -158,7 +202,7 @@ pub fn c02(a: &Args) -> Ctx {
                     if s.n_buckets != want {
                         return Some(ctx.classify(finding(&["C02", "C07"], "reopen_params", i, format!("table has {} buckets after reopening with {}, it was created with {} buckets", s.n_buckets, cfg.text(), want))));
                     }
-                    if let Ok(img) = Image::read(&dir, "m") {
+                    if let Ok(img) = Image::read(&dir, "m.v1") {
                         if img.htx.len() < 4_000_000 {
                             ctx.digests.insert(img.digest());
                             if !s.model.is_empty() {
@@ -171,7 +215,7 @@ pub fn c02(a: &Args) -> Ctx {
             // final drop + new process
             s.close();
             let other = Cfg::random(rng, false);
-            match spawn_verify(a, &dir, "m", K::NAME, &other, &s.model, &h.keys) {
+            match spawn_verify(a, &dir, "m.v1", K::NAME, &other, &s.model, &h.keys) {
                 Ok(()) => ctx.count("reopen.new_process", 1),
                 Err(m) if m.starts_with("HARNESS") => return Some(Stop::Harness(m)),
                 Err(m) => return Some(ctx.classify(finding(&["C02"], "reopen_new_process", h.ops.len(), format!("final state reopened with {}: {m}", other.text())))),
